@@ -193,6 +193,13 @@ def rule_r3(p, res):
     r = res.rule("C19.R3", "index dispatch over all index kinds")
     f = p.own_method("LazyList", "__getitem__")
     idx = f.params[1]
+    # no index object is re-interpreted as a slice: range(a, b, s) and slice(a, b, s) disagree for negative end points
+    conv = [k for k in calls_in(f.node) if isinstance(k.func, ast.Name) and k.func.id == "slice" and any(isinstance(a_, ast.Attribute) and a_.attr in ("start", "stop", "step") for a_ in k.args)]
+    if conv:
+        r.instance(f)
+        r.violation(f, conv[0], "__getitem__ rebuilds its index as `%s`: a range (or any object with start/stop/step) is not a slice -- negative end points count from the end in a slice "
+                    "but are ordinary integers in a range, so `ll[range(n - 1, -1, -1)]` comes back empty" % norm(conv[0])[:60])
+        return
 
     def classify(ret):
         s = norm(ret.value)
@@ -409,4 +416,9 @@ WITNESSES = [
 WITNESSES += [
     Witness("C19.W10", "menpo/io/input/base.py", "_import_lazylist_attach_landmarks", "lm_resolvers = [partial(landmark_resolver, x.path, i) for i in range(len(x))]", "lm_resolvers = [(lambda d: (lambda: d))(landmark_resolver(x.path, i)) for i in range(len(x))]",
             rule="C19.R7", construct="_import_lazylist_attach_landmarks", note="seeded change R3-C19-C (resolver called while the list is built)"),
+]
+
+WITNESSES += [
+    Witness("C19.W11", "menpo/base.py", "LazyList.__getitem__", "def __getitem__(self, slice_):", "def __getitem__(self, slice_):\n    if isinstance(slice_, range):\n        slice_ = slice(slice_.start, slice_.stop, slice_.step)",
+            rule="C19.R3", construct="LazyList.__getitem__", note="seeded change R4-C19-A"),
 ]
